@@ -36,7 +36,7 @@ def build(types, dt100, stop=1000, spawn=None, default_v=2):
             m = self.model
             m._calls.append("a%d" % self.id)
             for p in m._plan:
-                if p["snd"] == self.id and p["k"] == m._stepidx:
+                if p.get("snd") == self.id and p["k"] == m._stepidx:
                     if p["op"] == "Plan":
                         m.enqueue_event(make_event(p, self.id))
                     elif p["op"] == "PlanSet":
@@ -63,6 +63,14 @@ def build(types, dt100, stop=1000, spawn=None, default_v=2):
 
         def end_round(self, time, sim_round, step):
             self._calls.append("end")
+            for p in self._plan:            # what the model itself does at the end of the round
+                if p["op"] == "PlanEnd" and p["k"] == self._stepidx:
+                    ag = self.agent(p["target"])
+                    if ag is not None:
+                        if p["kind"] == "est":
+                            ag.state = p["x"]
+                        else:
+                            ag.v = p["x"] / 2.0
             self._stepidx += 1
 
     dc = RefCollector()
